@@ -893,7 +893,88 @@ def rule_no_inplace_growth_(ctx: Ctx, rep: Report) -> None:
     rule_no_inplace_growth(ctx, rep, "C05.no_inplace_growth", ('btclib.tx', 'btclib.block', 'btclib.p2p', 'btclib.var_', 'btclib.psbt', 'btclib.bip32.key_origin', 'btclib.script.witness'), 1)
 
 
+def rule_wire_refusals_unconditional(ctx: Ctx, rep: Report) -> None:
+    """C05.wire_refusals_unconditional: `check_validity` says whether the *object*
+    is validated (`assert_valid`), never whether the *encoding* is: a checksum
+    that does not match, a trailing byte, a short read, a non-minimal prefix
+    are refused by a parser whatever the flag says -- otherwise bytes are
+    accepted that do not serialize back to themselves. So in a decoder no
+    refusal is control-dependent on the flag."""
+    rule = "C05.wire_refusals_unconditional"
+    n = 0
+    for q, fi in sorted(ctx.prog.functions.items()):
+        if "check_validity" not in fi.params() or not (fi.name in ("parse", "from_dict", "b64decode", "b58decode") or fi.name.startswith("parse")):
+            continue
+        g = ctx.cfg(fi)
+        bad = []
+        refs = ctx.refusals(fi)
+        for t, pol, nd in refs:
+            facts = g.facts()[nd.id]
+            if any("check_validity" in str(x) and p_ for x, p_ in facts) or "check_validity" in str(norm(t)):
+                bad.append(t)
+        n += 1
+        rep.ob(rule, q, not bad, fi.where(bad[0] if bad else None), f"{len(refs)} refusals, none behind the flag" if not bad else
+               f"the refusal `{norm(bad[0])[:70]}` is made only when check_validity is set: with the flag off the encoding error is accepted, and the object serializes to other bytes")
+    rep.floor(rule, 40)
+
+
+def rule_reversal_parity(ctx: Ctx, rep: Report) -> None:
+    """C05.reversal_parity: hashes are kept in display order and written in wire
+    order: every `[::-1]` a class's `serialize` applies is undone by one in its
+    `parse` (11 classes, counts equal on the unchanged tree). A reversal on one
+    side only gives back the hash byte-reversed: parse(serialize(x)) != x for
+    every hash that is not a palindrome."""
+    rule = "C05.reversal_parity"
+
+    def revs(fi: FuncInfo) -> int:
+        return sum(1 for n in own_nodes(fi.node) if isinstance(n, ast.Subscript) and isinstance(n.slice, ast.Slice) and n.slice.lower is None
+                   and n.slice.upper is None and n.slice.step is not None and norm(n.slice.step) == "-1") + \
+            sum(1 for n in own_nodes(fi.node) if isinstance(n, ast.Call) and call_name(n) == "reversed")
+    n = 0
+    for cq, ci in sorted(ctx.prog.classes.items()):
+        if "serialize" not in ci.methods or "parse" not in ci.methods:
+            continue
+        a, b = revs(ci.methods["serialize"]), revs(ci.methods["parse"])
+        if not a and not b:
+            continue
+        n += 1
+        rep.ob(rule, cq, a == b, ci.methods["parse"].where(), f"{a} reversal(s) written, {b} read back" + ("" if a == b else ": a hash comes back byte-reversed (or a reversed one is taken as it is)"))
+    rep.floor(rule, 8)
+
+
+def rule_zero_is_present(ctx: Ctx, rep: Report) -> None:
+    """C05.zero_is_present: PsbtIn.serialize leaves a field out when it is None --
+    and, by truthiness, when it is empty -- except the fields listed in
+    `_PRESENT_IF_NOT_NONE`. An optional *integer* field must be listed: 0 is a
+    value (a sequence of 0 is BIP125's signal, an output index of 0 is the
+    first output), and dropped by truthiness it does not survive a
+    serialize/parse round trip."""
+    rule = "C05.zero_is_present"
+    mi = ctx.module("btclib.psbt.psbt_in")
+    listed = ctx.const("btclib.psbt.psbt_in", "_PRESENT_IF_NOT_NONE")
+    if not isinstance(listed, (set, frozenset)):
+        rep.unknown(rule, "PsbtIn", "btclib/psbt/psbt_in.py:1", "_PRESENT_IF_NOT_NONE does not fold")
+        return
+    ci = mi.cls("PsbtIn")
+    n = 0
+    for st in ci.node.body:
+        if isinstance(st, ast.AnnAssign) and isinstance(st.target, ast.Name):
+            ann = str(norm(st.annotation)).replace(" ", "")
+            if ann in ("int|None", "Optional[int]", "None|int"):
+                n += 1
+                f = st.target.id
+                rep.ob(rule, f"PsbtIn.{f}", f in listed, f"{mi.relpath}:{st.lineno}", "written whenever it is not None" if f in listed else
+                       f"an optional integer written only when truthy: {f} = 0 is dropped by serialize and reads back as None")
+    # the serializer consults the set where it decides to skip
+    ser = ci.methods["serialize"]
+    rep.ob(rule, "PsbtIn.serialize:consults", "_PRESENT_IF_NOT_NONE" in str(norm(ser.node)), ser.where(), "serialize reads the set at its skip test")
+    rep.floor(rule, 4)
+
+
 RULES = [
+    ("C05.zero_is_present", rule_zero_is_present),
+    ("C05.reversal_parity", rule_reversal_parity),
+    ("C05.wire_refusals_unconditional", rule_wire_refusals_unconditional),
     ("C05.no_inplace_growth", rule_no_inplace_growth_),
     ("C05.params_forwarded", rule_params_forwarded_),
     ("C05.own_fields", rule_own_fields),
@@ -920,6 +1001,13 @@ def _flip_signed(qual: str, index: int = 0):
 
 
 CONTROLS = [
+    {"rule": "C05.zero_is_present", "name": "a sequence of 0 counts as absent", "module": "btclib.psbt.psbt_in",
+     "edit": lambda ctx: M.sub_module_expr(ctx, "btclib.psbt.psbt_in", lambda n: isinstance(n, ast.Constant) and n.value == "sequence" and isinstance(parent(n), ast.Set), "'sequence_'")},
+    {"rule": "C05.reversal_parity", "name": "GetCFCheckpt.parse takes the stop hash as it is on the wire", "module": "btclib.p2p.block_filters",
+     "edit": lambda ctx: M.sub_expr(ctx, "btclib.p2p.block_filters.GetCFCheckpt.parse", lambda n: isinstance(n, ast.Subscript) and isinstance(n.slice, ast.Slice) and n.slice.step is not None,
+                                    lambda n: norm(n.value))},
+    {"rule": "C05.wire_refusals_unconditional", "name": "the envelope checksum is compared only under check_validity", "module": "btclib.p2p.message",
+     "edit": lambda ctx: M.sub_expr(ctx, "btclib.p2p.message.Message.parse", M.is_text("checksum != expected"), "check_validity and checksum != expected")},
     {"rule": "C05.no_inplace_growth", "name": "Message.serialize starts from its own magic (F21)", "module": "btclib.p2p.message",
      "edit": lambda ctx: M.sub_expr(ctx, "btclib.p2p.message.Message.serialize", M.is_text("out = bytes(self.magic)"), "out = self.magic")},
     {"rule": "C05.psbt_whole_key", "name": "the version pre-reader stops at the first key of its type (F11)", "module": "btclib.psbt.psbt",
